@@ -46,9 +46,10 @@ VARIABLES starts,   \* Seq(flag): start states of definition A
           seenS,    \* ghost: indices of the starts returned since the last restart / clear / re-bind
           retG,     \* ghost: number of goals returned since then
           skipG,    \* ghost: number of goal samples discarded since then
+          drawnG,   \* ghost: indices of the goal states drawn since then
           lastAct   \* ghost: [act, args, ret] of the step that produced this state
-vars == <<starts, gkind, goals, gpos, ppdef, bound, added, sampled, temp, seenS, retG, skipG, lastAct>>
-view == <<starts, gkind, goals, gpos, ppdef, bound, added, sampled, temp, seenS, retG, skipG>>
+vars == <<starts, gkind, goals, gpos, ppdef, bound, added, sampled, temp, seenS, retG, skipG, drawnG, lastAct>>
+view == <<starts, gkind, goals, gpos, ppdef, bound, added, sampled, temp, seenS, retG, skipG, drawnG>>
 
 StartsB == <<"inv", "ok">>
 GoalsB == <<"ok">>
@@ -59,14 +60,14 @@ Goals(p) == IF p = "A" THEN goals ELSE IF p = "B" THEN GoalsB ELSE <<>>
 MaxSample(p) == IF Kind(p) = "states" THEN Len(Goals(p)) ELSE 0
 
 Act(a, args, ret) == lastAct' = [act |-> a, args |-> args, ret |-> ret]
-ResetGhost == seenS' = {} /\ retG' = 0 /\ skipG' = 0
-KeepGhost == UNCHANGED <<seenS, retG, skipG>>
+ResetGhost == seenS' = {} /\ retG' = 0 /\ skipG' = 0 /\ drawnG' = {}
+KeepGhost == UNCHANGED <<seenS, retG, skipG, drawnG>>
 KeepPdef == UNCHANGED <<starts, gkind, goals>>
 
 Init == /\ starts = <<>> /\ gkind = "none" /\ goals = <<>> /\ gpos = 0
         /\ ppdef = "none" /\ bound = "none"
         /\ added = 0 /\ sampled = 0 /\ temp = FALSE
-        /\ seenS = {} /\ retG = 0 /\ skipG = 0
+        /\ seenS = {} /\ retG = 0 /\ skipG = 0 /\ drawnG = {}
         /\ lastAct = [act |-> "Init", args |-> <<>>, ret |-> 0]
 
 (* ------------------------- the user edits definition A ------------------------- *)
@@ -145,7 +146,7 @@ NextStart ==
        IN  /\ added' = r.added
            /\ seenS' = IF r.ret # 0 THEN seenS \cup {r.ret} ELSE seenS
            /\ Act("NextStart", <<>>, r.ret)
-    /\ KeepPdef /\ UNCHANGED <<gpos, ppdef, bound, sampled, temp, retG, skipG>>
+    /\ KeepPdef /\ UNCHANGED <<gpos, ppdef, bound, sampled, temp, retG, skipG, drawnG>>
 
 (* nextGoal(ptc) for a sampleable goal, with the termination condition scripted as          *)
 (* "true once m samples were drawn in this call, or once the goal is exhausted" (so the     *)
@@ -158,9 +159,10 @@ RECURSIVE Draw(_, _, _, _, _)
 Draw(gs, pos, cnt, drawn, m) ==
     LET idx == (pos % Len(gs)) + 1
         pos2 == (pos + 1) % 12
-    IN  IF gs[idx] = "ok" THEN [ret |-> idx, pos |-> pos2, cnt |-> cnt + 1, skipped |-> drawn]
-        ELSE IF drawn + 1 < m /\ cnt + 1 < Len(gs) THEN Draw(gs, pos2, cnt + 1, drawn + 1, m)
-        ELSE [ret |-> 0, pos |-> pos2, cnt |-> cnt + 1, skipped |-> drawn + 1]
+    IN  IF gs[idx] = "ok" THEN [ret |-> idx, pos |-> pos2, cnt |-> cnt + 1, skipped |-> drawn, idxs |-> {idx}]
+        ELSE IF drawn + 1 < m /\ cnt + 1 < Len(gs)
+             THEN LET r == Draw(gs, pos2, cnt + 1, drawn + 1, m) IN [r EXCEPT !.idxs = @ \cup {idx}]
+        ELSE [ret |-> 0, pos |-> pos2, cnt |-> cnt + 1, skipped |-> drawn + 1, idxs |-> {idx}]
 
 NextGoal(m) ==
     /\ bound # "none"
@@ -174,8 +176,9 @@ NextGoal(m) ==
                     /\ gpos' = IF bound = "A" THEN r.pos ELSE gpos
                     /\ retG' = IF r.ret # 0 THEN retG + 1 ELSE retG
                     /\ skipG' = skipG + r.skipped
+                    /\ drawnG' = drawnG \cup r.idxs
                     /\ Act("NextGoal", [m |-> m], r.ret)
-           ELSE /\ UNCHANGED <<temp, sampled, gpos, retG, skipG>>
+           ELSE /\ UNCHANGED <<temp, sampled, gpos, retG, skipG, drawnG>>
                 /\ Act("NextGoal", [m |-> m], 0)
     /\ KeepPdef /\ UNCHANGED <<ppdef, bound, added, seenS>>
 
@@ -231,7 +234,7 @@ StepContract ==
                  /\ ~HaveMoreGoal => r = 0 /\ sampled' = sampled
                  /\ retG' <= MaxSample(bound)
                  /\ sampled' - sampled <= (IF lastAct'.args.m = 0 THEN 1 ELSE lastAct'.args.m)
-            /\ a \in {"Clear", "Restart"} => added' = 0 /\ sampled' = 0 /\ ~HaveMoreGoal' \/ sampled' = 0
+            /\ a \in {"Clear", "Restart"} => added' = 0 /\ sampled' = 0
             /\ a \in {"Use", "Update"} => (r = 1) = (bound' # bound)
             (* a start appended later is reachable without re-reading the earlier ones *)
             /\ a = "AddStart" /\ bound = "A" => added' = added /\ seenS' = seenS /\ HaveMoreStart'
@@ -243,11 +246,9 @@ StepContract ==
 (* cursor and the iterator's counter then disagree about which states are new.              *)
 GoalSweepComplete ==
     (bound = "A" /\ gkind = "states" /\ sampled = Len(goals) /\ Len(goals) > 0)
-        => retG + skipG = Len(goals)
+        => drawnG = 1..Len(goals)
 
 (* ------------------------------- scenario export ------------------------------- *)
-Obs == [seen |-> added, sampled |-> sampled, moreS |-> HaveMoreStart, moreG |-> HaveMoreGoal,
-        valid |-> ValidityOk, temp |-> temp, bound |-> bound, maxG |-> MaxSample(bound)]
 Dump == PrintT(ToJson([src |-> ToString(view), dst |-> ToString(view'), act |-> lastAct'.act,
                        args |-> lastAct'.args,
                        exp |-> [ret |-> lastAct'.ret,
